@@ -149,10 +149,10 @@ def generate_glue():
         ex.append("Definition %s_run : list Z -> list (list Z) -> list (list Z) := %s." % (name, c))
     ex.append("Extraction \"model.ml\" %s." % " ".join("%s_run" % n for n in sorted(comps)))
     write_if_changed(os.path.join(COQ, "Extract", "Extract.v"), "\n".join(ex) + "\n")
-    dm = ["(* GENERATED by py/vcheck.py. Do not edit. *)", "open Model",
-          "let runner (name : string) : z list -> z list list -> z list list =", "  match name with"]
+    dm = ["(* GENERATED by py/vcheck.py. Do not edit. *)",
+          "let runner name : Model.z list -> Model.z list list -> Model.z list list =", "  match name with"]
     for name in sorted(comps):
-        dm.append('  | "%s" -> %s_run' % (name, name))
+        dm.append('  | "%s" -> Model.%s_run' % (name, name))
     dm.append('  | _ -> failwith ("unknown component " ^ name)')
     write_if_changed(os.path.join(ROOT, "ocaml", "dispatch.ml"), "\n".join(dm) + "\n")
 
